@@ -7,7 +7,7 @@ oracle).  Nothing of minimize.py is re-implemented here: the residual, the `Norm
 
 Line protocol (one op per line, one output line per op):
 
-  log <spec>          run the problem, print `<canonical> ### <replay line for the Lean driver>`
+  log <spec>          run the problem, print `<output of run> ### <replay line for the Lean driver>`
   run <spec> | ...    run the problem (everything after `|` is the model's table part, ignored here),
                       print `<canonical> K=<call tags> QC=<qp contract> L=<lsq_linear cost>`
   witness lo hi x D   the candidate arithmetic of least_squares on one coordinate when the step is
@@ -257,8 +257,10 @@ def model_part(spec, log, kw):
 
 
 def qp_contract(log):
-    """How often the logged mju_boxQP results broke the contract the Lean theorems assume."""
-    infeasible = ascent = total = 0
+    """How often the logged mju_boxQP answers broke the contract the Lean theorems assume:
+    total ok answers, infeasible (dx outside [dlower, dupper]), ascent (grad.dx > 0) while dx = 0 was feasible,
+    ascent while dx = 0 was infeasible (x itself outside the box)."""
+    infeasible = ascent_in = ascent_out = total = 0
     for H, g, dl, du, nfree, dx in log.Q:
         if nfree < 0:
             continue
@@ -267,8 +269,11 @@ def qp_contract(log):
         if dl is not None and (np.any(dxv < vec(dl)) or np.any(dxv > vec(du))):
             infeasible += 1
         if float(np.dot(vec(g), dxv)) > 0:
-            ascent += 1
-    return "%d,%d,%d" % (total, infeasible, ascent)
+            if dl is None or (np.all(vec(dl) <= 0) and np.all(vec(du) >= 0)):
+                ascent_in += 1
+            else:
+                ascent_out += 1
+    return "%d,%d,%d,%d" % (total, infeasible, ascent_in, ascent_out)
 
 
 def lsq_cost(spec):
@@ -307,10 +312,11 @@ def main():
                 spec = json.loads(bytes.fromhex(w[1]).decode())
                 x, trace, text, log, err, kw = run_problem(spec)
                 can = canonical(x, trace, text, log, err)
+                full = "%s K=%s QC=%s L=%s" % (can, "".join(log.tags), qp_contract(log), lsq_cost(spec))
                 if w[0] == "log":
-                    print("%s ### run %s | %s" % (can, w[1], model_part(spec, log, kw)))
+                    print("%s ### run %s | %s" % (full, w[1], model_part(spec, log, kw)))
                 else:
-                    print("%s K=%s QC=%s L=%s" % (can, "".join(log.tags), qp_contract(log), lsq_cost(spec)))
+                    print(full)
             elif len(w) == 5 and w[0] == "witness":
                 print(witness(*[h2f(t) for t in w[1:]]))
             else:
